@@ -5,7 +5,7 @@ import re
 from tools.vlib import *
 
 PID = "C38"
-READY = False
+READY = True
 MANIFEST = {
     "level_text": "Lean 4 theorems about an executable model of JsonParser / parse_update_metadata (src/core/UpdateCheck.cpp), for every "
                   "byte string: parsing ends in `ok` or `err msg`, never in an out-of-range read and never with a loop still running "
@@ -356,7 +356,7 @@ def spec() -> Spec:
         extract=extract,
         nontrivial=nontrivial,
         post=post,
-        budget={"quick": 220, "thorough": 6000},
+        budget={"quick": 220, "thorough": 4500},
         search_budget={"quick": 600, "thorough": 9000},
         divergence_is_violation=True,
         per_case_timeout=60.0,
